@@ -859,10 +859,19 @@ class Num:
                 st.add(Poly.atom(r) - a)
                 st.add(Poly.atom(r) - b)
                 return Poly.atom(r)
-            if op == "/" and entails(st, -a) and entails(st, Poly.const(1) - b):
-                q = self.fresh(st, "quot", t)
-                st.add(Poly.atom(q) - a)  # q <= a for b >= 1
-                return Poly.atom(q)
+            if op in ("/", "%") and entails(st, -a) and entails(st, Poly.const(1) - b):
+                q = self.fresh(st, "quot", t, (0, self.trange(t)[1] if "w" in t else None))
+                Q = Poly.atom(q)
+                st.add(Q - a)  # q <= a for b >= 1
+                if a.degree() <= 1 and b.degree() <= 1 and len(b.t) <= 2:
+                    st.add(Q * b - a)              # q*b <= a
+                    st.add(a - Q * b - b + 1)      # a - q*b <= b - 1
+                if op == "/":
+                    return Q
+                r = self.fresh(st, "rem", t, (0, self.trange(t)[1] if "w" in t else None))
+                st.add(Poly.atom(r) - b + 1)
+                st.add(Poly.atom(r) - a)
+                return Poly.atom(r)
         return Poly.atom(self.fresh(st, "op", t)) if ("w" in t or t.get("ptr")) else None
 
     # ---- assumptions
